@@ -200,6 +200,21 @@ def run_f2(chk, P):
     chk.extra['self_test_calls_checked'] = ncalls
 
 
+def _sets_errno(P, tu, fn, depth=0):
+    if fn == 'imb_set_errno':
+        return True
+    if depth > 2 or not P.has(tu, fn):
+        return False
+    g = P.func(tu, fn)
+    for _, _, ev in g.calls():
+        c = ev['e'].get('fn')
+        if not c:
+            return True                 # an indirect call: may be any entry point
+        if _sets_errno(P, tu, c, depth + 1):
+            return True
+    return False
+
+
 def run_f1(chk, P):
     r = chk.rule('F1', 'each public init runs self_test() only on a successfully initialised manager and reports '
                        'IMB_ERR_SELFTEST exactly on its failing edge; the PASS bit is cleared first and set only on success', floor=12)
@@ -260,6 +275,30 @@ def run_f1(chk, P):
                            cf.evalc(e['e']['a'][1]) not in (0, None)]
                     r.check(not bad, name + ':success-clean', ev['loc'], '%s sets an error code on the self-test success path' % name)
             r.check(ok, name + ':errno', ev['loc'], '%s does not record IMB_ERR_SELFTEST in the manager when self_test() fails' % name)
+            # ... and the recorded code is still there when the init returns: every job-API entry point (and anything else that calls
+            # imb_set_errno) starts by resetting the manager's error code
+            for b2, i2, e2 in f.calls('imb_set_errno'):
+                if cf.evalc(e2['e']['a'][1]) != st_err:
+                    continue
+                wipes = []
+                seenb, stack = set(), [(b2, i2 + 1)]
+                while stack:
+                    bb, i0 = stack.pop()
+                    if (bb, i0 > 0) in seenb:
+                        continue
+                    seenb.add((bb, i0 > 0))
+                    for e3 in f.blocks[bb]['ev'][i0:]:
+                        if e3['k'] != 'call':
+                            continue
+                        c3 = e3['e']
+                        if not c3.get('fn'):
+                            wipes.append((e3, 'a call through a manager slot'))
+                        elif _sets_errno(P, tu, c3['fn']):
+                            wipes.append((e3, '%s()' % c3['fn']))
+                    stack.extend((s_, 0) for s_ in f.succ(bb))
+                r.check(not wipes, name + ':errno-kept', (wipes[0][0] if wipes else e2)['loc'],
+                        '%s records IMB_ERR_SELFTEST and then makes %s at %s, which resets the manager\'s error code: the failed self-test is '
+                        'reported with errno 0' % (name, wipes[0][1] if wipes else '', wipes[0][0]['loc'] if wipes else ''))
     # init_mb_mgr_auto reaches one of them for every accepted feature set
     fs = P.find('init_mb_mgr_auto')
     if fs:
